@@ -24,7 +24,6 @@ import (
 	"github.com/brutella/hc/db"
 	"github.com/brutella/hc/hap"
 
-	"github.com/brutella/hc/verifshim/vyield"
 
 	"verif/internal/refctl"
 	"verif/internal/sched"
@@ -477,9 +476,12 @@ func exploreHPair(scratch string, hp hpair, bound int, rep *Report, deadline tim
 		defer w.close()
 		if hp.prep != nil {
 			hp.prep(w)
+			waitFree()
 		}
 		r1 := first(w)
+		waitFree()
 		r2 := second(w)
+		waitFree()
 		if swap {
 			r1, r2 = r2, r1
 		}
@@ -509,22 +511,11 @@ func exploreHPair(scratch string, hp hpair, bound int, rep *Report, deadline tim
 		defer w.close()
 		if hp.prep != nil {
 			hp.prep(w)
+			waitFree()
 		}
 		S := &sched.Sched{}
-		counts := [2]int{}
 		capped := false
-		vyield.Hook = func() {
-			if !S.Active() {
-				return
-			}
-			t := S.Current()
-			counts[t]++
-			if counts[t] > capFor(bound) {
-				capped = true
-				return
-			}
-			S.Point(nil)
-		}
+		yieldHooks(S, capFor(bound), &capped)
 		installSync(S)
 		var ra, rb string
 		var pa, pb interface{}
@@ -539,7 +530,7 @@ func exploreHPair(scratch string, hp hpair, bound int, rep *Report, deadline tim
 			}
 		}
 		out := S.Run(prefix, []func(){guard(hp.a, &ra, &pa), guard(hp.b, &rb, &pb)})
-		vyield.Hook = nil
+		removeYieldHooks()
 		removeSync()
 		pr.Schedules++
 		pr.Points += len(out.Points)
@@ -553,6 +544,10 @@ func exploreHPair(scratch string, hp hpair, bound int, rep *Report, deadline tim
 		case out.Deadlock:
 			rep.Violations = append(rep.Violations, Violation{"interference/handlers-deadlock", "two handlers block each other: " + hp.name, cas})
 			nviol++
+		case diverged(pa, pb):
+			// the execution did not repeat under the recorded choices: something in the code under test is not
+			// deterministic (e.g. a goroutine the scheduler does not own); this schedule decides nothing
+			pr.Exhaustive = false
 		case pa != nil || pb != nil:
 			rep.Violations = append(rep.Violations, Violation{"interference/handlers-panic", fmt.Sprintf("a handler panics only when interleaved with the other (%v %v): %s", pa, pb, hp.name), cas})
 			nviol++
@@ -606,24 +601,14 @@ func exploreHPairPrefix(scratch string, hp hpair, cas Case, rep *Report, done *b
 	refAB, refBA := ref(hp.a, hp.b, false), ref(hp.b, hp.a, true)
 	if hp.prep != nil {
 		hp.prep(w)
+		waitFree()
 	}
 	S := &sched.Sched{}
-	counts := [2]int{}
-	vyield.Hook = func() {
-		if !S.Active() {
-			return
-		}
-		t := S.Current()
-		counts[t]++
-		if counts[t] > capFor(cas.Bound) {
-			return
-		}
-		S.Point(nil)
-	}
+	yieldHooks(S, capFor(cas.Bound), nil)
 	installSync(S)
 	var ra, rb string
 	out := S.Run(cas.Schedule, []func(){func() { ra = hp.a(w) }, func() { rb = hp.b(w) }})
-	vyield.Hook = nil
+	removeYieldHooks()
 	removeSync()
 	rep.Pairs = append(rep.Pairs, PairReport{A: "handlers: " + hp.name, Bound: cas.Bound, Schedules: 1, Points: len(out.Points), Exhaustive: true})
 	got := ra + " ## " + rb + " ## " + hp.after(w)
